@@ -1339,3 +1339,68 @@ pub trait HasWorkers: Sync {
     /// Get the worker pool
     fn workers(&self) -> &Self::WorkerPool;
 }
+
+/// Verification hooks (only compiled with `RUSTFLAGS="--cfg oxidd_verif"`; a
+/// no-op unless a test harness installs a callback with
+/// [`verif::set_hook()`]). The hooks only report events, they never change the
+/// behavior of the library.
+#[cfg(oxidd_verif)]
+pub mod verif {
+    use std::sync::atomic::{AtomicBool, Ordering::Relaxed};
+    use std::sync::RwLock;
+
+    /// Hook sites
+    pub mod site {
+        /// A thread is about to lock the unique table of level `data[0]`
+        pub const LEVEL_LOCK: u32 = 1;
+        /// `get_or_insert` on level `data[0]` (level mutex held)
+        pub const GOI_LEVEL: u32 = 2;
+        /// `get_or_insert` found an existing node: `data[0]` is its ID,
+        /// followed by `(child ID, child tag)` pairs (level mutex held)
+        pub const GOI_FOUND: u32 = 3;
+        /// `get_or_insert` inserted a new node, data as for `GOI_FOUND`
+        pub const GOI_NEW: u32 = 4;
+        /// The garbage collector starts sweeping level `data[0]` (level mutex
+        /// held)
+        pub const GC_LEVEL: u32 = 5;
+        /// The garbage collector removes the node with ID `data[0]` (level
+        /// mutex held)
+        pub const GC_REMOVE: u32 = 6;
+        /// A garbage collection starts
+        pub const GC_BEGIN: u32 = 7;
+        /// A garbage collection is done
+        pub const GC_END: u32 = 8;
+        /// Apply cache lookup
+        pub const CACHE_GET: u32 = 9;
+        /// Apply cache insertion
+        pub const CACHE_ADD: u32 = 10;
+        /// Reference count increment of the inner node `data[0]` is done
+        pub const RETAIN: u32 = 11;
+        /// Reference count decrement of the inner node `data[0]` is about to
+        /// happen
+        pub const RELEASE: u32 = 12;
+    }
+
+    /// Callback type: hook site and event data
+    pub type Hook = Box<dyn Fn(u32, &[usize]) + Send + Sync>;
+
+    static ENABLED: AtomicBool = AtomicBool::new(false);
+    static HOOK: RwLock<Option<Hook>> = RwLock::new(None);
+
+    /// Install (or remove) the callback
+    pub fn set_hook(hook: Option<Hook>) {
+        let mut guard = HOOK.write().unwrap_or_else(|e| e.into_inner());
+        ENABLED.store(hook.is_some(), Relaxed);
+        *guard = hook;
+    }
+
+    /// Report an event to the callback (if any)
+    #[inline]
+    pub fn emit(site: u32, data: &[usize]) {
+        if ENABLED.load(Relaxed) {
+            if let Some(hook) = &*HOOK.read().unwrap_or_else(|e| e.into_inner()) {
+                hook(site, data)
+            }
+        }
+    }
+}
